@@ -17,7 +17,8 @@ KNOWN_TEXT = {
     "F-C34-a": "two identical relays both validated before either stored => the same proof is stored twice "
                "(Relay.Validate's uniqueness check and Proof.Store are not atomic)",
     "F-C34-b": "two relays both loaded the evidence (SetProof: GetEvidence) before either stored => lost update: a relay "
-               "answered with a signed response before sealing is missing from the stored evidence",
+               "answered with a signed response before sealing is missing from the stored evidence (also inside an already "
+               "sealed evidence, through the shared slice backing array)",
     "F-C34-c": "a claim pass deleted a below-minimum evidence (and its seal mark) between a relay's load and store => the "
                "relay's stale copy revives the deleted proofs (duplicates / more proofs than the application allows)",
     "F-C35-unstaking-app": "relay served and recorded for an application whose record at the session height has status "
@@ -92,7 +93,7 @@ def c34(c):
     c.assume("the bloom filter of an evidence is modelled as an exact set: the harness picks relay entropies for which the "
              "real filter has no false positive among the scenario's proofs")
     c.assume("pocketcore/MinimumNumberOfProofs = 2 on the harness chain (1 makes the merkle root generator index out of range); "
-             "a claim pass DELETES evidence below it, which the specification models; application allowances 1, 2, 3, 6 relays; "
+             "a claim pass DELETES evidence below it, which the specification models; application allowances 1, 2, 3, 4, 6 relays; "
              "with an allowance below that minimum and two claim passes SendClaimTx panics on a revived evidence "
              "(GenerateMerkleRoot truncates to one leaf) - that configuration is outside the explored space")
     c.assume("relays are handled on the committed state of height 8 (session 5..8), claim passes on height 10; LeanPocket off; "
@@ -107,8 +108,8 @@ def c34(c):
         c.parts.append("design model, property as stated (%s): %s" % (inv, "TLC counterexample found (to be confirmed on the real code)" if as_stated[inv] else "no counterexample"))
 
     # ---- 1. every interleaving / every transition of the design model, replayed on the real HandleRelay
-    stages = [("MCEvidenceConc_paths_q.cfg", "every complete interleaving of 2 relays (+ claim pass), allowances 1-2 and aliased slices"),
-              ("MCEvidenceConc_cover_q.cfg", "every transition of a 3-relay + 1 claim state graph")]
+    stages = [("MCEvidenceConc_paths_q.cfg", "every complete interleaving of 2 relays (+ claim pass), allowances 1-2, 4, 6 and aliased slices"),
+              ("MCEvidenceConc_cover_q.cfg", "every transition of two 3-relay state graphs (claim pass; slice full exactly at the limit)")]
     if thorough:
         stages += [("MCEvidenceConc_paths_m.cfg", "every complete interleaving of 2 relays, allowance 3 / two claim passes"),
                    ("MCEvidenceConc_cover_m.cfg", "every transition of the other 3-relay + 1 claim state graphs"),
@@ -175,7 +176,7 @@ def c34(c):
     c.cov["design_counterexamples_as_stated"] = as_stated
     return c.finish(
         rule="behaviours = every complete interleaving (at the code's scheduling points) of 2 relays, identical and distinct, "
-             "allowances 1-3 and 6, 0-3 earlier proofs, 0-2 claim passes; every transition of the 3-relay state graphs"
+             "allowances 1-4 and 6, 0-3 earlier proofs, 0-2 claim passes; every transition of the 3-relay state graphs"
              + ("; every complete interleaving of 3 relays" if thorough else "") +
              "; plus seeded random schedules of 2-%d relays.  After EVERY step the announced point / reply and the projected "
              "evidence (proof multiset, count, slice capacity, filter content, cached / sealed flags) are compared with the "
